@@ -950,6 +950,214 @@ def r10(ctx, rep):
     rep.note(f"{n} (dialect, parent, child, side) combinations enumerated")
 
 
+# ---------------------------------------------------------------------------
+# sqlparser expression kinds that print their operands without delimiters ("open" syntax): operand field -> side
+OPEN_KINDS = {
+    "BinaryOp": ["left", "right"],
+    "UnaryOp": ["expr"],
+    "Between": ["expr", "low", "high"],
+    "InList": ["expr"],
+    "InSubquery": ["expr"],
+    "IsNull": [0],
+    "IsNotNull": [0],
+    "IsTrue": [0],
+    "IsFalse": [0],
+    "IsDistinctFrom": [0, 1],
+    "IsNotDistinctFrom": [0, 1],
+    "Like": ["expr", "pattern"],
+    "ILike": ["expr", "pattern"],
+    "SimilarTo": ["expr", "pattern"],
+    "AnyOp": ["left"],
+    "AllOp": ["left"],
+    "AtTimeZone": ["timestamp"],
+    "Collate": ["expr"],
+}
+# constructors whose printed form is delimited (an atom for every parent)
+CLOSED_CTORS = {"Value", "Identifier", "CompoundIdentifier", "Function", "Nested", "Case", "Cast", "Interval", "TypedString", "Tuple", "Array", "Subquery"}
+
+
+def is_sql_expr_path(p):
+    """`sql_ast::Expr::K`, `sqlparser::ast::Expr::K` or a bare `Expr::K` (never rq::/pl:: kinds, which are ExprKind)"""
+    segs = p.split("::")
+    return len(segs) >= 2 and segs[-2] == "Expr" and not (set(segs[:-2]) & {"rq", "pl", "pr", "ir"})
+
+
+def r11(ctx, rep):
+    rep.rule("C02.R11", "every open-syntax sqlparser expression built by the generator takes its operands through translate_operand with "
+             "at least its own strength, and has an explicit row in Expr::binding_strength", floor=12)
+    syn = ctx.syn
+    sc = sql_scale(syn)
+    et, ed, fe = sc["expr"]
+    bt, bd, _ = sc["bin"]
+    ut, ud, _ = sc["un"]
+    n_sites = 0
+
+    def strip(e):
+        while e is not None:
+            k = e.get("k")
+            if k == "try":
+                e = e["e"]
+            elif k == "paren":
+                e = e["e"]
+            elif k == "mcall" and e["m"] in ("into_ast", "clone", "into"):
+                e = e["r"]
+            elif k == "call" and show(e["f"]) in ("Box::new", "Some") and e["a"]:
+                e = e["a"][0]
+            else:
+                break
+        return e
+
+    def locals_of(f):
+        out = []
+        for n in walk(f["body"]):
+            if n.get("k") == "local" and n.get("init") is not None:
+                out.append((n["l"], show(n["pat"]).replace("mut ", ""), n["init"]))
+            if n.get("k") == "assign":
+                out.append((n["l"], show(n["lhs"]), n["rhs"]))
+        return out
+
+    def own_strength(kind, node, f):
+        """strength of the constructed kind per the extracted tables (int) or None"""
+        if kind == "BinaryOp":
+            d = {a: b for a, b in node["f"]} if node.get("k") == "struct" else {}
+            op = show(d.get("op")) if d.get("op") is not None else ""
+            if "::" in op:
+                return bt.get(last_seg(op), bd), op
+            return "op", op   # symbolic: the variable operator
+        if kind == "UnaryOp":
+            d = {a: b for a, b in node["f"]} if node.get("k") == "struct" else {}
+            op = show(d.get("op")) if d.get("op") is not None else ""
+            if "::" in op:
+                return ut.get(last_seg(op), ud), op
+            return "op", op
+        v = et.get(kind)
+        return (v if isinstance(v, int) else None), kind
+
+    def eval_strength(e, locs, line, depth=0):
+        """int | ('own', kind) | ('op', name) | None"""
+        e = strip(e)
+        if e is None or depth > 4:
+            return None
+        v = lit_val(e)
+        if isinstance(v, int):
+            return v
+        if e.get("k") == "bin" and e["op"] in ("+", "-"):
+            a, b = eval_strength(e["lhs"], locs, line, depth + 1), eval_strength(e["rhs"], locs, line, depth + 1)
+            if isinstance(a, int) and isinstance(b, int):
+                return a + b if e["op"] == "+" else a - b
+            return None
+        if e.get("k") == "mcall" and e["m"] == "binding_strength":
+            r = e["r"]
+            t = show(r, maxdepth=3)
+            if r.get("k") == "path" and "::" not in r["p"]:
+                return ("op", r["p"])
+            if t.startswith("BinaryOperator::"):
+                return bt.get(last_seg(r["p"]), bd) if r.get("k") == "path" else None
+            if t.startswith("UnaryOperator::"):
+                return ut.get(last_seg(r["p"]), ud) if r.get("k") == "path" else None
+            for kind in OPEN_KINDS:
+                if t.startswith("sql_ast::Expr::" + kind):
+                    return ("own", kind)
+            return None
+        if e.get("k") == "path" and "::" not in e["p"]:
+            cands = [(l, init) for l, name, init in locs if name == e["p"] and l <= line]
+            if cands:
+                l, init = max(cands, key=lambda x: x[0])
+                return eval_strength(init, locs, l, depth + 1)
+        return None
+
+    def operand_origin(e, locs, line, depth=0):
+        """('operand', call_node) | ('closed', ctor) | ('raw', text)"""
+        e = strip(e)
+        if e is None or depth > 5:
+            return ("raw", "?")
+        if e.get("k") == "call":
+            fn = show(e["f"])
+            if last_seg(fn) == "translate_operand":
+                return ("operand", e)
+            if is_sql_expr_path(fn) and last_seg(fn) in CLOSED_CTORS:
+                return ("closed", last_seg(fn))
+            if is_sql_expr_path(fn) and last_seg(fn) in OPEN_KINDS:
+                return ("open", last_seg(fn))
+        if e.get("k") == "struct" and is_sql_expr_path(e["p"]):
+            k = last_seg(e["p"])
+            return ("closed", k) if k in CLOSED_CTORS else ("open", k)
+        if e.get("k") == "path" and "::" not in e["p"]:
+            cands = [(l, init) for l, name, init in locs if name == e["p"] and l < line]
+            if cands:
+                # every reaching definition must be checked (assignments in loops re-define the name)
+                res = [operand_origin(init, locs, l, depth + 1) for l, init in cands if l < line]
+                worst = [r for r in res if r[0] not in ("operand", "closed")]
+                # a definition that is itself the same open construction (accumulator) is judged at its own site
+                worst = [r for r in worst if r[0] != "open"]
+                if worst:
+                    return worst[0]
+                ops = [r for r in res if r[0] == "operand"]
+                return ops[-1] if ops else res[-1]
+        return ("raw", show(e, maxdepth=5)[:70])
+
+    constructed = {}
+    for f in syn.fns:
+        if f["crate"] != "prqlc" or "/src/sql/" not in f["file"] or "body" not in f:
+            continue
+        if f["path"].endswith("::binding_strength") or f["path"].endswith("::associativity"):
+            continue
+        locs = None
+        for n in walk(f["body"]):
+            kind = None
+            fields = {}
+            if n.get("k") == "struct" and is_sql_expr_path(n["p"]) and last_seg(n["p"]) in OPEN_KINDS:
+                kind = last_seg(n["p"])
+                fields = {a: b for a, b in n["f"]}
+            elif n.get("k") == "call" and is_sql_expr_path(show(n["f"])) and last_seg(show(n["f"])) in OPEN_KINDS:
+                kind = last_seg(show(n["f"]))
+                fields = dict(enumerate(n["a"]))
+            if kind is None:
+                continue
+            if locs is None:
+                locs = locals_of(f)
+            # a constructor used only to ask for its strength (`sql_ast::Expr::IsNull(..).binding_strength()`) is not emitted
+            n_sites += 1
+            constructed.setdefault(kind, (f, n))
+            own, opname = own_strength(kind, n, f)
+            for fld in OPEN_KINDS[kind]:
+                if fld not in fields:
+                    continue
+                key = f"operand:{f['path']}:{kind}.{fld}"
+                org = operand_origin(fields[fld], locs, n["l"] + 200)
+                if org[0] == "closed":
+                    rep.ok(key, nontrivial=False)
+                    continue
+                if org[0] != "operand":
+                    if org[0] == "raw" and org[1].startswith("sql_ast::Expr::Value"):
+                        rep.ok(key, nontrivial=False)
+                        continue
+                    rep.bad(key, f"`{kind}.{fld}` is built from `{org[1]}` without translate_operand: a weaker-binding operand is emitted without parentheses and SQL regroups it",
+                            file=f["file"], line=n["l"], fn=f["path"])
+                    continue
+                call = org[1]
+                st = eval_strength(call["a"][2], locs, call["l"]) if len(call["a"]) >= 3 else None
+                good = False
+                if isinstance(st, int) and isinstance(own, int):
+                    good = st >= own
+                elif isinstance(st, tuple) and st[0] == "op" and own == "op":
+                    good = st[1] == opname
+                elif isinstance(st, tuple) and st[0] == "own":
+                    good = st[1] == kind or (isinstance(own, int) and isinstance(et.get(st[1]), int) and et[st[1]] >= own)
+                rep.check(good, key, f"operand `{kind}.{fld}` is checked against strength `{show(call['a'][2]) if len(call['a']) >= 3 else '?'}` (= {st}), "
+                          f"which is not the constructed kind's own strength ({own}); weaker operands escape parenthesisation",
+                          file=f["file"], line=call["l"], fn=f["path"])
+    for kind, (f, n) in sorted(constructed.items()):
+        if kind in ("BinaryOp", "UnaryOp"):
+            has = kind in et or any(h == kind for h in et)
+            rep.check(kind in et, f"row:{kind}", f"Expr::binding_strength has no row for {kind}", file=fe["file"], line=fe["l"], fn=fe["path"])
+            continue
+        rep.check(isinstance(et.get(kind), int) and et[kind] < ed, f"row:{kind}",
+                  f"the generator constructs sql_ast::Expr::{kind} ({f['path']}) but Expr::binding_strength has no explicit row for it: it falls into the atom default "
+                  f"({ed}) and no parent ever parenthesises it", file=fe["file"], line=fe["l"], fn=fe["path"])
+    rep.check(n_sites >= 6, "sites", f"expected >= 6 open-syntax construction sites in sql/, found {n_sites}")
+
+
 def run(ctx, rep):
-    for r in (r1, r2, r3, r4, r5, r6, r7, r8, r9, r10):
+    for r in (r1, r2, r3, r4, r5, r6, r7, r8, r9, r10, r11):
         rep.guard(r, ctx)
